@@ -8,10 +8,11 @@ Open Scope list_scope.
 
 Section C12.
   (* external behaviour: pandas' get_loc / __contains__, and the conversion of a fill value to a dtype
-     (bool() / int() / str() followed by np.full) — the theorems hold for every such behaviour *)
+     (bool() / int() / str() followed by np.full(n, value, dtype); n is an argument because NumPy converts the
+     value only when there is an element to fill) — the theorems hold for every such behaviour *)
   Variable pd_get_loc : list label -> label -> outcome loc.
   Variable pd_contains : list label -> label -> bool.
-  Variable cast : dtype -> pyval -> outcome cell.
+  Variable cast : nat -> dtype -> pyval -> outcome cell.
 
   (* ---------- reindex_values + reindex_preserves_meta ----------
      For all old / new spans (any length, permuted, disjoint, repeated labels in the new span), all variables in
@@ -28,7 +29,7 @@ Section C12.
     /\ attrs_view (c_attrs st') = attrs_view (c_attrs st)
     /\ Forall2 (fun a b : string * series cell =>
                   fst b = fst a /\ s_dtype (snd b) = s_dtype (snd a)
-                  /\ exists c, fill_cell cast (s_dtype (snd a)) (fill_for fills fv (fst a)) = Ret c
+                  /\ exists c, fill_cell cast (List.length (span_labels new_span)) (s_dtype (snd a)) (fill_for fills fv (fst a)) = Ret c
                             /\ s_data (snd b) =
                                map (fun p => match pos p (span_labels (c_span st)) with
                                              | Some q => nth q (s_data (snd a)) c
@@ -51,9 +52,10 @@ Section C12.
     fill_for fills fv name = match lookup name fills with Some v => v | None => fv end.
   Proof. exact (fill_precedence fills fv name). Qed.
   Theorem C12_fill_none_defaults :
-    fill_cell cast DBool PNone = Ret (CB false) /\ fill_cell cast DInt PNone = Ret (CI 0)
-    /\ (forall w, fill_cell cast (DStr w) PNone = Ret (CS "")) /\ fill_cell cast DFloat PNone = cast DFloat PNone
-    /\ (forall dt v, v <> PNone -> fill_cell cast dt v = cast dt v).
+    forall n,
+    fill_cell cast n DBool PNone = Ret (CB false) /\ fill_cell cast n DInt PNone = Ret (CI 0)
+    /\ (forall w, fill_cell cast n (DStr w) PNone = Ret (CS "")) /\ fill_cell cast n DFloat PNone = cast n DFloat PNone
+    /\ (forall dt v, v <> PNone -> fill_cell cast n dt v = cast n dt v).
   Proof. exact (fill_none_defaults cast). Qed.
 
   (* ---------- reindex_fresh ---------- *)
@@ -66,7 +68,7 @@ Section C12.
     reindex_M pd_get_loc pd_contains cast st new_span new_id fv strict fills fresh = Ret st' ->
     (forall id, In id (series_ids (c_vars st') ++ attr_ids (c_attrs st')) -> fresh <= id)
     /\ (forall id, In id (object_ids (c_vars st')) ->
-          In id (object_ids (c_vars st)) \/ exists dt v, cast dt v = Ret (CO id)).
+          In id (object_ids (c_vars st)) \/ exists n dt v, cast n dt v = Ret (CO id)).
   Proof. exact (reindex_fresh pd_get_loc pd_contains cast st st' new_span new_id fv strict fills fresh). Qed.
 
   (* no object references, an allocator handing out unused identities, a new span object that is not one of the
@@ -78,7 +80,7 @@ Section C12.
     (forall id, In id (ids st) -> id < fresh) ->
     ~ In new_id (ids st) ->
     object_ids (c_vars st) = [] ->
-    (forall dt v id, cast dt v <> Ret (CO id)) ->
+    (forall n dt v id, cast n dt v <> Ret (CO id)) ->
     reindex_M pd_get_loc pd_contains cast st new_span new_id fv strict fills fresh = Ret st' ->
     forall id, In id (ids st') -> ~ In id (ids st).
   Proof. exact (reindex_shares_nothing pd_get_loc pd_contains cast st st' new_span new_id fv strict fills fresh). Qed.
@@ -105,7 +107,7 @@ Section C12.
   (* ---------- the pandas mixin: whatever Series.reindex and the casting assignment answer, its loop leaves span,
      attributes, strictness, variable order, dtypes and every variable not in `names` (status, iterations) as the
      core reindex made them ---------- *)
-  Variable series_reindex : span -> list cell -> span -> option string -> pyval -> outcome (list cell).
+  Variable series_reindex : span -> dtype -> list cell -> span -> option string -> pyval -> outcome (list cell).
   Variable assign_cast : dtype -> list cell -> outcome (list cell).
   Theorem C12_pandas_loop_frame orig new_span mf fills fv names r r' :
     pandas_loop series_reindex assign_cast orig new_span mf fills fv names r = Ret r' ->
